@@ -122,6 +122,24 @@ type memH struct {
 	removed map[int]prof
 	health  map[int]int
 	reqSeq  uint64
+	// the lagging replica: a second real Cluster of the same raft cluster that applies only the
+	// conf changes it is not partitioned away from, and catches up through snapshots
+	fl      *raftv2.Cluster
+	fmem    map[int]prof // what the replica has applied (its own history)
+	frem    map[int]prof
+	onF     bool // requests are currently evaluated on the replica
+	snapSeq uint64
+}
+
+// onFollower runs f with the replica (real cluster and its model) in place of the leader.
+func (h *memH) onFollower(f func()) {
+	cl, mem, rem := h.cl, h.members, h.removed
+	h.cl, h.members, h.removed, h.onF = h.fl, h.fmem, h.frem, true
+	defer func() {
+		h.fmem, h.frem = h.members, h.removed
+		h.cl, h.members, h.removed, h.onF = cl, mem, rem, false
+	}()
+	f()
 }
 
 func (h *memH) isHealthy(id int) bool {
@@ -268,6 +286,12 @@ func (h *memH) decide(add bool, p prof, path int) (err error, m *consensus.Membe
 				panic(e)
 			}
 			_, m, err = h.cl.VerifValidateConfChangeEntry(&raftpb.Entry{Type: raftpb.EntryConfChange, Term: 3, Index: leaderLast + 1, Data: data})
+		case 3:
+			var cc *raftpb.ConfChange
+			if cc, err = h.cl.VerifMakeConfChange(reqID, typ, m); err != nil {
+				panic("raftw: makeConfChange: " + err.Error())
+			}
+			err = h.cl.VerifValidateChangeMembership(cc, m, true)
 		default:
 			var cc *raftpb.ConfChange
 			if cc, err = h.cl.VerifMakeConfChange(reqID, typ, m); err != nil {
@@ -292,7 +316,11 @@ func (h *memH) check(add bool, p prof, path int, idx int, quiet bool) (accepted 
 		v   verdict
 		why string
 	)
-	avail := path != 2
+	avail := path != 2 && path != 3 && !h.onF
+	at := ""
+	if h.onF {
+		at = "@replica"
+	}
 	if add {
 		q := p
 		if path == 1 {
@@ -308,7 +336,7 @@ func (h *memH) check(add bool, p prof, path int, idx int, quiet bool) (accepted 
 		kind = "add"
 	}
 	if pan != "" {
-		x.Fail("C16", "membership-check-panic", kind, fmt.Sprintf("%s request %+v (path %d) against %s: %s", kind, p, path, h.describe(), pan), idx)
+		x.Fail("C16", "membership-check-panic", kind+at, fmt.Sprintf("%s request %+v (path %d) against %s: %s", kind, p, path, h.describe(), pan), idx)
 		return false, nil
 	}
 	accepted = err == nil
@@ -317,25 +345,34 @@ func (h *memH) check(add bool, p prof, path int, idx int, quiet bool) (accepted 
 		es = err.Error()
 	}
 	if !quiet {
-		x.Logf("%s %+v path=%d -> %s; text: %s (%s)", kind, p, path, es, v, why)
-		x.Probe(why)
+		x.Logf("%s%s %+v path=%d -> %s; text: %s (%s)", kind, at, p, path, es, v, why)
+		if h.onF {
+			x.Probe("replica-" + why)
+		} else {
+			x.Probe(why)
+		}
 		x.Digest("mem", h.describe(), kind, p.id, p.name, p.addr, p.peer, path, accepted)
 	}
 	switch {
 	case v == mustRefuse && accepted:
-		x.Fail("C16", "forbidden-membership-change-accepted", why, fmt.Sprintf("%s request %+v (path %d) was accepted against %s; the property refuses it: %s", kind, p, path, h.describe(), why), idx)
+		x.Fail("C16", "forbidden-membership-change-accepted", why+at, fmt.Sprintf("%s request %+v (path %d) was accepted against %s; the property refuses it: %s", kind, p, path, h.describe(), why), idx)
 	case v == mustAccept && !accepted:
-		x.Fail("C16", "permitted-membership-change-refused", why, fmt.Sprintf("%s request %+v (path %d) was refused (%s) against %s; nothing in the property refuses it: %s", kind, p, path, es, h.describe(), why), idx)
+		x.Fail("C16", "permitted-membership-change-refused", why+at, fmt.Sprintf("%s request %+v (path %d) was refused (%s) against %s; nothing in the property refuses it: %s", kind, p, path, es, h.describe(), why), idx)
 	}
 	return accepted && v != mustRefuse, m
 }
 
 func (h *memH) describe() string {
 	s := fmt.Sprintf("leader=%d members=[", h.self)
+	if h.onF {
+		s = "replica members=["
+	}
 	for _, id := range h.sortedIDs(h.members) {
 		m := h.members[id]
 		hs := "H"
-		if !h.isHealthy(id) {
+		if h.onF {
+			hs = "-"
+		} else if !h.isHealthy(id) {
 			hs = [...]string{"H", "probe", "snap", "lag", "H"}[h.health[id]]
 		}
 		s += fmt.Sprintf("%d(n%d a%d p%d %s) ", id, m.name, m.addr, m.peer, hs)
@@ -430,6 +467,216 @@ func (h *memH) attrOf(id int) prof {
 	return prof{id: id, name: id, addr: id, peer: id}
 }
 
+// ---- the lagging replica -------------------------------------------------------------------
+
+// replicate hands one conf change the leader has applied to the replica, the way a node applies
+// a committed conf change entry (raftServer.applyConfChange: ValidateConfChangeEntry, then
+// addMember/removeMember; an entry that fails validation is skipped). The replica judges it
+// against its OWN history, which differs from the leader's when it missed earlier changes.
+func (h *memH) replicate(add bool, p prof, idx int) {
+	h.onFollower(func() {
+		q := p
+		if !add {
+			q = prof{id: p.id}
+		}
+		ok, m := h.check(add, q, 2, idx, false)
+		if h.x.Failed() || !ok || m == nil {
+			h.x.Probe("replica-skipped-conf-change")
+			return
+		}
+		if add {
+			if err := h.cl.VerifAddMember(m, true); err != nil {
+				h.x.Fail("C16", "accepted-change-not-applicable", "add@replica", fmt.Sprintf("addMember(%+v) on the replica after acceptance: %v", p, err), idx)
+				return
+			}
+			h.members[p.id] = p
+		} else {
+			if err := h.cl.VerifRemoveMember(m); err != nil {
+				h.x.Fail("C16", "accepted-change-not-applicable", "remove@replica", fmt.Sprintf("removeMember(%d) on the replica after acceptance: %v", p.id, err), idx)
+				return
+			}
+			h.removed[p.id] = h.members[p.id]
+			delete(h.members, p.id)
+		}
+		h.x.Probe("replica-applied-conf-change")
+	})
+}
+
+func memberList(ms []*consensus.Member) string {
+	out := make([]string, 0, len(ms))
+	for _, m := range ms {
+		out = append(out, fmt.Sprintf("%x/%s/%s/%x", m.ID, m.Name, m.Address, sha256.Sum256(m.PeerID)))
+	}
+	sort.Strings(out)
+	return fmt.Sprint(out)
+}
+
+func (h *memH) modelList(m map[int]prof) string {
+	var ms []*consensus.Member
+	for _, id := range h.sortedIDs(m) {
+		q := m[id]
+		q.id = id
+		ms = append(ms, q.member())
+	}
+	return memberList(ms)
+}
+
+// stateDiff compares the three member sets of a real cluster with a model; "" = equal.
+func (h *memH) stateDiff(cl *raftv2.Cluster, mem, rem map[int]prof) string {
+	var got [3]string
+	if p := sutCall(func() {
+		got[0], got[1], got[2] = memberList(cl.Members().ToArray()), memberList(cl.AppliedMembers().ToArray()), memberList(cl.RemovedMembers().ToArray())
+	}); p != "" {
+		return p
+	}
+	want := [3]string{h.modelList(mem), h.modelList(mem), h.modelList(rem)}
+	for i, n := range [3]string{"members", "applied members", "removed members"} {
+		if got[i] != want[i] {
+			return fmt.Sprintf("%s = %s, expected %s", n, got[i], want[i])
+		}
+	}
+	for _, id := range h.sortedIDs(rem) {
+		if !cl.IsIDRemoved(poolID(id)) {
+			return fmt.Sprintf("IsIDRemoved(%d) is false for a removed member", id)
+		}
+	}
+	for _, id := range h.sortedIDs(mem) {
+		if cl.IsIDRemoved(poolID(id)) {
+			return fmt.Sprintf("IsIDRemoved(%d) is true for a current member", id)
+		}
+	}
+	return ""
+}
+
+func sameKeys(a, b map[int]prof) bool {
+	if len(a) != len(b) {
+		return false
+	}
+	for k := range a {
+		if _, ok := b[k]; !ok {
+			return false
+		}
+	}
+	return true
+}
+
+// snapshot: the leader builds snapshot data with the real createSnapshotData, the replica runs
+// the real Cluster.Recover on it (raftServer.publishSnapshot does). Afterwards the replica's
+// member sets must be the leader's, and it must refuse what the leader refuses.
+func (h *memH) snapshot(idx int) {
+	x := h.x
+	if d := h.stateDiff(h.cl, h.members, h.removed); d != "" {
+		x.Fail("C16", "cluster-state-differs", "leader", "the leader's cluster after the applied changes: "+d+" ("+h.describe()+")", idx)
+		return
+	}
+	var nodes []uint64
+	for _, id := range h.sortedIDs(h.members) {
+		nodes = append(nodes, poolID(id))
+	}
+	h.snapSeq++
+	blk := &types.Block{Header: &types.BlockHeader{ChainID: walChainID, BlockNo: h.snapSeq, Timestamp: int64(h.snapSeq)}, Body: &types.BlockBody{}}
+	blk.BlockHash()
+	cs := raftpb.ConfState{Nodes: nodes}
+	var (
+		sd  *consensus.SnapshotData
+		err error
+	)
+	if p := sutCall(func() { sd, err = raftv2.VerifCreateSnapshotData(h.cl, blk, &cs) }); p != "" || err != nil || sd == nil {
+		panic(fmt.Sprintf("raftw: createSnapshotData: %v %s", err, p))
+	}
+	data, err := sd.Encode()
+	if err != nil {
+		panic(err)
+	}
+	snap := &raftpb.Snapshot{Data: data, Metadata: raftpb.SnapshotMetadata{Index: leaderLast + h.snapSeq, Term: 3, ConfState: cs}}
+	// what the replica missed
+	lag := false
+	for _, id := range h.sortedIDs(h.removed) {
+		_, a := h.fmem[id]
+		_, b := h.frem[id]
+		switch {
+		case !a && !b:
+			x.Probe("follower-missed-add-and-remove")
+			lag = true
+		case a:
+			x.Probe("follower-missed-remove")
+			lag = true
+		}
+	}
+	for _, id := range h.sortedIDs(h.members) {
+		if _, a := h.fmem[id]; !a {
+			x.Probe("follower-missed-add")
+			lag = true
+		}
+	}
+	if lag && sameKeys(h.fmem, h.members) {
+		x.Probe("follower-same-members-stale-removed-set")
+	}
+	if lag {
+		x.Fault("replica-partitioned")
+	}
+	var same bool
+	if p := sutCall(func() { same, err = h.fl.Recover(snap) }); p != "" || err != nil {
+		x.Fail("C16", "recover-from-snapshot-failed", "replica", fmt.Sprintf("Cluster.Recover on the replica: %v %s", err, p), idx)
+		return
+	}
+	if same {
+		x.Probe("follower-snapshot-nothing-new")
+	} else {
+		x.Probe("follower-recovered-from-snapshot")
+	}
+	x.Logf("snapshot #%d -> replica (lagging=%v, skipped=%v)", h.snapSeq, lag, same)
+	if d := h.stateDiff(h.fl, h.members, h.removed); d != "" {
+		x.Fail("C16", "replica-state-differs-after-snapshot", "replica", fmt.Sprintf("after Cluster.Recover from the leader's snapshot (%s) the replica's %s", h.describe(), d), idx)
+		return
+	}
+	h.fmem, h.frem = map[int]prof{}, map[int]prof{}
+	for k, v := range h.members {
+		h.fmem[k] = v
+	}
+	for k, v := range h.removed {
+		h.frem[k] = v
+	}
+	h.replicaSweep(idx)
+}
+
+// replicaSweep: the refusal oracle on the replica (validation of log entries, both entry points):
+// every removal target, and additions under every id with fresh or singly duplicated attributes.
+func (h *memH) replicaSweep(idx int) {
+	h.onFollower(func() {
+		x := h.x
+		targets := append(h.sortedIDs(h.members), h.sortedIDs(h.removed)...)
+		targets = append(targets, nPool-1)
+		for _, path := range []int{2, 3} {
+			for _, t := range targets {
+				h.check(false, prof{id: t}, path, idx, true)
+				x.Count("replica-sweep-decisions", 1)
+				if x.Failed() {
+					return
+				}
+			}
+			for _, i := range append([]int{-1}, targets...) {
+				fresh := prof{i, nPool - 1, nPool - 1, nPool - 1}
+				cands := []prof{fresh}
+				for _, o := range targets {
+					a := h.attrOf(o)
+					c1, c2, c3 := fresh, fresh, fresh
+					c1.name, c2.addr, c3.peer = a.name, a.addr, a.peer
+					cands = append(cands, c1, c2, c3)
+				}
+				for _, c := range cands {
+					h.check(true, c, path, idx, true)
+					x.Count("replica-sweep-decisions", 1)
+					if x.Failed() {
+						return
+					}
+				}
+			}
+		}
+		x.Probe("replica-sweep")
+	})
+}
+
 func (w *World) runMembers(x *simkit.Ctx) {
 	thorough := x.Case.Tier == "thorough"
 	nsteps := x.CfgInt("steps", func(r *simkit.Rng) int {
@@ -460,6 +707,31 @@ func (w *World) runMembers(x *simkit.Ctx) {
 	raftv2.VerifWireServer(h.cl, h.node, storage, poolID(self))
 	h.publish()
 
+	// the replica: another node of the same cluster (the first other initial member, or a node
+	// that is about to join), started from the same initial configuration
+	fself := nPool
+	for i := 0; i < n0; i++ {
+		if i != self {
+			fself = i
+			break
+		}
+	}
+	h.fmem, h.frem = map[int]prof{}, map[int]prof{}
+	h.fl = raftv2.NewCluster(walChainID, nil, poolName(fself), poolPeers[fself], 0, nil)
+	for i := 0; i < n0; i++ {
+		p := prof{i, i, i, i}
+		if err := h.fl.VerifAddMember(p.member(), true); err != nil {
+			panic(err)
+		}
+		h.fmem[i] = p
+	}
+	h.fl.SetNodeID(poolID(fself))
+	h.fl.SetClusterID(0xC1)
+	fstorage := raft.NewMemoryStorage()
+	raftv2.VerifWireServer(h.fl, &fakeNode{}, fstorage, poolID(self))
+	partitioned := false // generator state only: steps carry their own "missed" flag
+	var addedInPartition []int
+
 	pickAttr := func(r *simkit.Rng) int { return r.Intn(nPool - 1) }
 	gen := func(r *simkit.Rng) *simkit.Step {
 		if len(x.Case.Steps) >= nsteps {
@@ -472,7 +744,42 @@ func (w *World) runMembers(x *simkit.Ctx) {
 		if r.Chance(3, 4) {
 			apply = 1
 		}
-		switch r.Pick(25, 30, 30, 6) {
+		if r.Chance(1, 6) {
+			partitioned = !partitioned
+			if !partitioned {
+				addedInPartition = nil
+			}
+		}
+		miss := 0
+		if (partitioned && r.Chance(9, 10)) || (!partitioned && r.Chance(1, 12)) {
+			miss = 1
+		}
+		lagging := !sameKeys(h.fmem, h.members) || !sameKeys(h.frem, h.removed)
+		wSnap, wReq := 5, 6
+		if lagging {
+			wSnap = 14
+		}
+		switch r.Pick(22, 30, 30, 5, wSnap, wReq) {
+		case 4:
+			partitioned, addedInPartition = false, nil
+			return &simkit.Step{Op: "snapshot"}
+		case 5:
+			// a request judged by the replica alone: a stale or replayed conf change entry
+			fpath := 2 + r.Intn(2)
+			all := append(append([]int{}, mem...), rem...)
+			t := r.Intn(nPool)
+			if len(all) > 0 && r.Chance(3, 4) {
+				t = all[r.Intn(len(all))]
+			}
+			if r.Bool() {
+				return &simkit.Step{Op: "frm", A: t, K: []int{fpath}}
+			}
+			q := prof{t, pickAttr(r), pickAttr(r), pickAttr(r)}
+			if r.Bool() {
+				f := nPool - 2
+				q = prof{t, f, f, f}
+			}
+			return &simkit.Step{Op: "fadd", A: q.id, B: q.name, C: q.addr, N: q.peer, K: []int{fpath}}
 		case 0:
 			k := make([]int, nPool)
 			mode := r.Pick(3, 2, 1)
@@ -522,7 +829,10 @@ func (w *World) runMembers(x *simkit.Ctx) {
 					p.peer = q.peer
 				}
 			}
-			return &simkit.Step{Op: "add", A: p.id, B: p.name, C: p.addr, N: p.peer, K: []int{path, apply}}
+			if partitioned && miss == 1 && apply == 1 && path != 1 {
+				addedInPartition = append(addedInPartition, p.id)
+			}
+			return &simkit.Step{Op: "add", A: p.id, B: p.name, C: p.addr, N: p.peer, K: []int{path, apply, miss}}
 		case 2:
 			t := r.Intn(nPool)
 			if len(mem) > 0 && r.Chance(3, 4) {
@@ -530,7 +840,14 @@ func (w *World) runMembers(x *simkit.Ctx) {
 			} else if len(rem) > 0 && r.Bool() {
 				t = rem[r.Intn(len(rem))]
 			}
-			return &simkit.Step{Op: "rm", A: t, K: []int{path, apply}}
+			if partitioned && len(addedInPartition) > 0 && r.Bool() {
+				// the member that joined while the replica was away leaves again
+				t, miss, apply = addedInPartition[r.Intn(len(addedInPartition))], 1, 1
+				if path == 1 {
+					path = 0
+				}
+			}
+			return &simkit.Step{Op: "rm", A: t, K: []int{path, apply, miss}}
 		}
 		return &simkit.Step{Op: "sweep"}
 	}
@@ -570,6 +887,11 @@ func (w *World) runMembers(x *simkit.Ctx) {
 				h.health[p.id] = hHealthy
 				h.publish()
 				x.Probe("member-added")
+				if kAt(st.K, 2) == 1 {
+					x.Probe("replica-missed-conf-change")
+				} else {
+					h.replicate(true, p, idx)
+				}
 			}
 		case "rm":
 			p := prof{id: inPool(st.A)}
@@ -589,9 +911,26 @@ func (w *World) runMembers(x *simkit.Ctx) {
 				h.publish()
 				x.Probe("member-removed")
 				x.Out.Nontrivial = true
+				if kAt(st.K, 2) == 1 {
+					x.Probe("replica-missed-conf-change")
+				} else {
+					h.replicate(false, p, idx)
+				}
 			}
 		case "sweep":
 			h.sweep(idx)
+		case "snapshot":
+			h.snapshot(idx)
+		case "fadd", "frm":
+			p := prof{inPool(st.A), inPool(st.B), inPool(st.C), inPool(st.N)}
+			fpath := 2 + kAt(st.K, 0)%2
+			h.onFollower(func() {
+				if st.Op == "fadd" {
+					h.check(true, p, fpath, idx, false)
+				} else {
+					h.check(false, prof{id: p.id}, fpath, idx, false)
+				}
+			})
 		default:
 			x.Noop()
 		}
